@@ -121,7 +121,7 @@ func (r *run) syncEvent(as []*actor, e Ev) {
 	if e.Post == "lag" {
 		r.lagAfter = mod(e.N, 5) // the snapshot update may have read the log already when it is left behind
 	}
-	r.cur = &curSync{f: f, late: e.Late}
+	r.cur = &curSync{f: f, late: e.Late, lateAt: int(e.Dur)}
 	r.pump(f, g, e.MF, e.Post == "lag", "hold")
 	calls = append(calls, r.cur.calls...)
 	started = append(started, r.cur.started...)
@@ -200,6 +200,7 @@ func (r *run) syncEvent(as []*actor, e Ev) {
 // curSync is the exchange event the pump is driving.
 type curSync struct {
 	f       *focus
+	lateAt  int // seconds into the slow command at which the late joiners arrive (0: 5)
 	late    []int
 	calls   []*call
 	started []*actor
